@@ -263,6 +263,13 @@ int open_fd_count() { return (int)fds.size(); }
 std::vector<string> open_paths() { std::vector<string> r; for (auto &f : fds) r.push_back(f.second.path); return r; }
 
 bool foreign_trylock(const string &p) { IP i = lookup(p); if (!i) return true; return i->lock_holder != 1; }
+bool foreign_lock(const string &p, bool on) {
+  IP i = lookup(p);
+  if (!i) return false;
+  if (on) { if (i->lock_holder != 0) return false; i->lock_holder = 2; return true; }
+  if (i->lock_holder == 2) i->lock_holder = 0;
+  return true;
+}
 bool locked_by_self(const string &p) { IP i = lookup(p); return i && i->lock_holder == 1; }
 
 size_t min_dircut(const Journal &j, size_t k) {
